@@ -5,7 +5,8 @@ Driver ops of C19 (harness/cc/determinism.go, census19_suite.go):
   c19mods <rootname> <root> <graph>        module order of the html index
         (model: reachable files sorted by name; real: index.html)
   c19site <key>                            census tie: the regenerated table's entry
-  c19det <s|t><seed> <gen> <R> <keep> / c19dir <gen> <R> <dir>
+  c19det <s|t|u|v><seed> <gen> <R> <keep> / c19dir <gen> <R> <dir> / c19hist <tok> <gen> <variant> <keep>
+        (c19hist: the -out directory already holds other output; the model's output does not depend on it)
         a determinism run; the model is a function, its outputs over repetitions are
         one and the same: `ok same`
 graph: nodes `i=inc,inc,…` separated by `;`, inc = `name.target.vendor`, `-` = no includes.
@@ -54,6 +55,9 @@ def c19NodeName (rootName : String) (root : Nat) (g : List (Nat × List (Inc × 
 
 def c19IsNat (s : String) : Bool := s.toNat?.isSome
 
+/-- program tokens of the harness: s/t/u/v followed by the generator seed -/
+def c19IsTok (s : String) : Bool := ["s", "t", "u", "v"].any (fun c => s.startsWith c)
+
 def stepDeterminism (op : String) (args : List String) : Option String :=
   match op, args with
   | "c19ord", [lang, opts, root, graph] =>
@@ -75,13 +79,16 @@ def stepDeterminism (op : String) (args : List String) : Option String :=
       else "unknown-site"
     | none => "unknown-site"
   | "c19det", [seed, _gen, r, _keep] =>
-    some (if c19IsNat (seed.drop 1).toString && (seed.startsWith "s" || seed.startsWith "t") && c19IsNat r then "ok same" else "bad-op")
+    some (if c19IsNat (seed.drop 1).toString && c19IsTok seed && c19IsNat r then "ok same" else "bad-op")
+  | "c19hist", [seed, _gen, variant, _keep] =>
+    some (if c19IsNat (seed.drop 1).toString && c19IsTok seed && ["opts", "sup", "sub", "target", "twice"].contains variant then "ok same" else "bad-op")
   | "c19dir", [_gen, r, _dir] =>
     some (if c19IsNat r then "ok same" else "bad-op")
   | "c19ord", _ => some "bad-op"
   | "c19mods", _ => some "bad-op"
   | "c19site", _ => some "bad-op"
   | "c19det", _ => some "bad-op"
+  | "c19hist", _ => some "bad-op"
   | "c19dir", _ => some "bad-op"
   | _, _ => none
 
